@@ -280,7 +280,8 @@ def value_of(case, p):
 def make_domain(case):
     if case["domain"] == "rect":
         return [tuple(b) for b in case["bounds"]]
-    return scipy.spatial.ConvexHull(np.array(case["hull"], dtype=float))
+    # (the hull may be given by a point cloud: `cloud` holds additional points inside the hull, which are no corners)
+    return scipy.spatial.ConvexHull(np.array(list(case["hull"]) + list(case.get("cloud", [])), dtype=float))
 
 
 def make_learner(case):
@@ -318,6 +319,14 @@ def gen_case(rng, nops):
                 [(0, 0, 0), (2, 0, 0), (2, 2, 0), (0, 2, 0), (1, 1, 1.5)],
             ])
         case["hull"] = [tuple(float(x) for x in p) for p in pts]
+        if rng.random() < 0.4:
+            # a hull built from a cloud: strict convex combinations of the corners are inside, not corners of the domain
+            cloud = []
+            for _ in range(rng.choice([1, 3, 6])):
+                w = [rng.uniform(0.1, 1.0) for _ in case["hull"]]
+                tot = sum(w)
+                cloud.append(tuple(sum(wi * p[j] for wi, p in zip(w, case["hull"])) / tot for j in range(dim)))
+            case["cloud"] = cloud
         arr = np.array(case["hull"])
         case["bbox"] = [(float(a), float(b)) for a, b in zip(arr.min(axis=0), arr.max(axis=0))]
     return case
